@@ -137,3 +137,7 @@ mod test {
         (0..16).for_each(|i| assert_eq!(s.estimate(i), 0));
     }
 }
+
+#[cfg(feature = "verif-hooks")]
+#[path = "/verif/kani/hooks_sketch_std.rs"]
+mod verif_hooks;
